@@ -60,3 +60,21 @@ cfg("MC_faults_mut.cfg", fault_consts(FieldAlpha="<- AlphaMutF", OpTypes='= {"mu
 cfg("MC_faults_args.cfg", fault_consts(FieldAlpha="<- AlphaArgsF", ArgOpts="<- ArgOptsFail", Aliases='= {"", "z"}', MaxFaults="= 1", MaxSel="= 3"), FAULT_INV, spec="SpecF")
 cfg("MC_faults_layout3.cfg", fault_consts(FieldAlpha="<- AlphaLayout", Aliases='= {""}', MaxFaults="= 2", MaxSel="= 3"), FAULT_INV, spec="SpecF")
 cfg("MC_faults_nested4.cfg", fault_consts(FieldAlpha="<- AlphaNested", Aliases='= {""}', MaxFaults="= 2", MaxSel="= 4"), FAULT_INV, spec="SpecF")
+
+# ---- C08 / C09: scheduler ---------------------------------------------------------------
+def sched_consts(**kw):
+    d = fault_consts(SeqFields="= {}", LConc="= TRUE", WithFaults="= FALSE")
+    d.update(kw)
+    return d
+SCHED_INV = ["R1_Sched", "R1_Serial", "EmitS"]
+SCHED_R1 = ["R1_Sched", "R1_Serial"]
+FLAGSETS = {"cc": dict(SeqFields="= {}", LConc="= TRUE"), "cs": dict(SeqFields="= {}", LConc="= FALSE"),
+            "sc": dict(SeqFields="<- AllFieldNames", LConc="= TRUE"), "ss": dict(SeqFields="<- AllFieldNames", LConc="= FALSE"),
+            "mc": dict(SeqFields="<- SomeFieldNames", LConc="= TRUE"), "ms": dict(SeqFields="<- SomeFieldNames", LConc="= FALSE")}
+for fk, fl in FLAGSETS.items():
+    cfg("MC_sched_q_%s.cfg" % fk, sched_consts(FieldAlpha="<- AlphaSched", Aliases='= {""}', MaxSel="= 4", WithFaults="= FALSE", **fl), SCHED_INV, spec="SpecS")
+    cfg("MC_sched_f_%s.cfg" % fk, sched_consts(FieldAlpha="<- AlphaSchedF", Aliases='= {""}', MaxSel="= 3", WithFaults="= TRUE", **fl), SCHED_INV, spec="SpecS")
+    cfg("MC_sched_m_%s.cfg" % fk, sched_consts(FieldAlpha="<- AlphaSchedM", OpTypes='= {"mutation"}', Aliases='= {""}', MaxSel="= 3", WithFaults="= TRUE", **fl), SCHED_INV, spec="SpecS")
+    cfg("MC_sched_mq_%s.cfg" % fk, sched_consts(FieldAlpha="<- AlphaSchedM2", OpTypes='= {"mutation"}', Aliases='= {"", "z"}', Conds='= {"Mutation"}', MaxFrags="= 1", MaxSel="= 4", WithFaults="= FALSE", **fl), SCHED_INV, spec="SpecS")
+    cfg("MC_sched_mz_%s.cfg" % fk, sched_consts(FieldAlpha="<- AlphaSchedM", OpTypes='= {"mutation"}', Aliases='= {"", "z"}', MaxSel="= 3", WithFaults="= TRUE", **fl), SCHED_INV, spec="SpecS")
+cfg("MC_sched_live.cfg", sched_consts(FieldAlpha="<- AlphaSchedF", Aliases='= {""}', MaxSel="= 3", WithFaults="= TRUE", SeqFields="<- SomeFieldNames", LConc="= FALSE"), SCHED_R1, spec="FairSpecS", props=["Termination"], extra="VIEW NoHist")
